@@ -12,8 +12,9 @@ import (
 func init() { families["C14"] = runC14 }
 
 type c14Call struct {
-	Units [][]int `json:"units"`
-	Scs   []int   `json:"scs"`
+	Units   [][]int `json:"units"`
+	Scs     []int   `json:"scs"`
+	SkipAgg *bool   `json:"skipagg_now"` // set: the application changes SkipAggregation before this call
 }
 
 type c14Case struct {
@@ -122,13 +123,16 @@ func runC14(raw json.RawMessage, w *Writer) {
 		pristine := cloneBytes(stream)
 		for k, call := range c.Calls {
 			var frags [][]byte
+			if call.SkipAgg != nil {
+				p.SkipAggregation = *call.SkipAgg
+			}
 			r, _ := guard(func() { frags = p.Payload(uint16(c.Mtu), stream[bounds[k]:bounds[k+1]]) })
 			intact := bytes.Equal(stream, pristine) // the call wrote neither into its window nor into what lies behind it
 			parsed := []Ev{}
 			for _, f := range frags {
 				parsed = append(parsed, h265Parse(f, c.Donl))
 			}
-			w.Emit(Ev{"ev": "payload", "k": k, "mtu": c.Mtu, "donl": c.Donl, "skipagg": c.SkipAgg, "units": call.Units, "res": r, "stream_intact": intact,
+			w.Emit(Ev{"ev": "payload", "k": k, "mtu": c.Mtu, "donl": c.Donl, "skipagg": p.SkipAggregation, "units": call.Units, "res": r, "stream_intact": intact,
 				"frags": intss(frags), "parsed": parsed})
 		}
 	}
